@@ -25,6 +25,9 @@
           in flight apply to them, the lambda's own parameters do not hide them), the body under the parameters
      F32  _inner_binders counts every parameter of a lambda that stays (keyword-only, positional-only, * and ** too)
      F36  a helper whose source contains an assignment expression is left by name ([has_walrus] in [helper_capval])
+     F42  names bound by assignment expressions in a lambda's body ([assigned]) are on the ignore stack of
+          _rewrite_captured_vars like its parameters: they are local to the lambda, never captures
+     F48  a called lambda whose body contains an assignment expression is not "plainly called": the call stays
      F34, F35  a captured bound method / a callable with __wrapped__ is left by name: decided on the live object
           (inspect.ismethod, hasattr) - an input of the model, [CFun None] in the snapshot, computed by the harness
    What [inspect.getclosurevars] / [f.__globals__] / [getattr] report at the moment of the call is
@@ -348,6 +351,52 @@ Fixpoint free_in (bd : list string) (e : expr) {struct e} : list string :=
 
 Definition same (r : sres expr) : sres (expr * expr) := sbind r (fun e' => Ok (e', e')).
 
+(* F36: any(isinstance(n, ast.NamedExpr) for n in ast.walk(lm)) - an assignment expression `(x := v)` is
+   Other "NamedExpr;target=n;value=n" [] [x; v] *)
+Fixpoint has_walrus (e : expr) : bool :=
+  match e with
+  | Name _ | Const _ | Raw _ => false
+  | Attr v _ => has_walrus v
+  | Call f args _ kwv => has_walrus f || existsb has_walrus args || existsb has_walrus kwv
+  | Lambda _ b => has_walrus b
+  | UnaryOp _ x => has_walrus x
+  | BinOp _ l r => has_walrus l || has_walrus r
+  | BoolOp _ es => existsb has_walrus es
+  | Compare l _ rs => has_walrus l || existsb has_walrus rs
+  | IfExp c t f => has_walrus c || has_walrus t || has_walrus f
+  | Tuple es | List es => existsb has_walrus es
+  | Dict ks vs => existsb has_walrus ks || existsb has_walrus vs
+  | Subscript v s => has_walrus v || has_walrus s
+  | ListComp x gs | GenExp x gs => has_walrus x || existsb has_walrus gs
+  | CompFor t i ifs _ => has_walrus t || has_walrus i || existsb has_walrus ifs
+  | Other cls _ cs => String.prefix "NamedExpr;" cls || existsb has_walrus cs
+  end.
+
+(* F42: util_ast._assigned_names - the names that assignment expressions in [e], part of a lambda's body, bind in that
+   lambda.  The body of a nested lambda is a scope of its own (not entered); its default values are not. *)
+Fixpoint assigned (e : expr) : list string :=
+  match e with
+  | Name _ | Const _ | Raw _ => []
+  | Lambda _ _ => []
+  | Attr v _ => assigned v
+  | Call f args _ kwv => assigned f ++ flat_map assigned args ++ flat_map assigned kwv
+  | UnaryOp _ x => assigned x
+  | BinOp _ l r => assigned l ++ assigned r
+  | BoolOp _ es => flat_map assigned es
+  | Compare l _ rs => assigned l ++ flat_map assigned rs
+  | IfExp c t f => assigned c ++ assigned t ++ assigned f
+  | Tuple es | List es => flat_map assigned es
+  | Dict ks vs => flat_map assigned ks ++ flat_map assigned vs
+  | Subscript v s => assigned v ++ assigned s
+  | ListComp x gs | GenExp x gs => assigned x ++ flat_map assigned gs
+  | CompFor t i ifs _ => assigned t ++ assigned i ++ flat_map assigned ifs
+  | Other cls _ cs =>
+      (if String.prefix "NamedExpr;" cls then match cs with Name x :: _ => [x] | _ => [] end else [])
+      ++ (if String.prefix "Lambda;" cls
+          then match cs with a :: _ => assigned a | [] => [] end       (* node.args only *)
+          else flat_map assigned cs)
+  end.
+
 Section Rewrite.
   Variable ce : cenv.
 
@@ -384,7 +433,8 @@ Section Rewrite.
               end
           | _ => Ok (old, old)
           end)
-    | Lambda ps b => same (sbind (rw (ps :: st) b) (fun p => Ok (Lambda ps (fst p))))
+    | Lambda ps b =>            (* F42: names bound by assignment expressions in the body are local as well *)
+        same (sbind (rw ((ps ++ assigned b) :: st) b) (fun p => Ok (Lambda ps (fst p))))
     | Call f args kwn kwv =>
         same (sbind (rw st f) (fun pf =>
               sbind (rw_list (rw st) args) (fun args' =>
@@ -450,7 +500,7 @@ Section Rewrite.
               match lam_view acls akids with
               | Some lv =>
                   same (sbind (rw_list (fun k => if is_argnode k then Ok (k, k) else rw st k) akids) (fun akids' =>
-                        sbind (rw (lv_params lv :: st) b) (fun pb =>
+                        sbind (rw ((lv_params lv ++ assigned b) :: st) b) (fun pb =>
                           Ok (Other cls atoms [Other acls aatoms akids'; fst pb]))))
               | None => same (sbind (rw_list (rw st) cs) (fun cs' => Ok (Other cls atoms cs')))
               end
@@ -516,7 +566,7 @@ Fixpoint inner_binders (e : expr) : list string :=
       match f with
       | Lambda ps b =>
           match kwn, inner_binders b with
-          | [], [] => if Nat.eqb (length ps) (length args) && negb (existsb is_starred args)
+          | [], [] => if Nat.eqb (length ps) (length args) && negb (existsb is_starred args || has_walrus b)
                       then flat_map inner_binders args
                       else ps ++ flat_map inner_binders args ++ flat_map inner_binders kwv
           | _, bb => ps ++ bb ++ flat_map inner_binders args ++ flat_map inner_binders kwv
@@ -530,7 +580,8 @@ Fixpoint inner_binders (e : expr) : list string :=
             | [Other acls _ akids; b] =>
                 match lam_view acls akids, kwn, inner_binders b with
                 | Some lv, [], [] =>
-                    if lv_simple lv && Nat.eqb (length (lv_args lv)) (length args) && negb (existsb is_starred args)
+                    if lv_simple lv && Nat.eqb (length (lv_args lv)) (length args)
+                       && negb (existsb is_starred args || has_walrus b)
                     then flat_map inner_binders args
                     else generic
                 | _, _, _ => generic
@@ -571,8 +622,8 @@ Fixpoint res (st : list amap) (e : expr) {struct e} : expr :=
           | [] =>
               if Nat.eqb (length ps) (length args)
               then
-                if existsb is_starred args
-                then Call (Lambda ps (res (shadow ps :: st) b)) (map (res st) args) kwn (map (res st) kwv)   (* F30 *)
+                if existsb is_starred args || has_walrus b       (* F30; F48: an assignment expression binds in the lambda *)
+                then Call (Lambda ps (res (shadow ps :: st) b)) (map (res st) args) kwn (map (res st) kwv)
                 else
                 let args' := map (res st) args in
                 if overlaps (flat_map names_in args') (inner_binders b)
@@ -589,7 +640,8 @@ Fixpoint res (st : list amap) (e : expr) {struct e} : expr :=
             | [Other acls _ akids; b] =>
                 match lam_view acls akids, kwn with
                 | Some lv, [] =>
-                    if lv_simple lv && Nat.eqb (length (lv_args lv)) (length args) && negb (existsb is_starred args)
+                    if lv_simple lv && Nat.eqb (length (lv_args lv)) (length args)
+                       && negb (existsb is_starred args || has_walrus b)
                     then
                       let args' := map (res st) args in
                       if overlaps (flat_map names_in args') (inner_binders b)
@@ -659,27 +711,6 @@ Fixpoint res (st : list amap) (e : expr) {struct e} : expr :=
    node without generators would raise IndexError in the implementation; no parser produces one, and
    [res] returns such a node unchanged.) *)
 Definition resolve_called (e : expr) : sres expr := Ok (res [] e).
-
-(* F36: any(isinstance(n, ast.NamedExpr) for n in ast.walk(lm)) - an assignment expression `(x := v)` is
-   Other "NamedExpr;target=n;value=n" [] [x; v] *)
-Fixpoint has_walrus (e : expr) : bool :=
-  match e with
-  | Name _ | Const _ | Raw _ => false
-  | Attr v _ => has_walrus v
-  | Call f args _ kwv => has_walrus f || existsb has_walrus args || existsb has_walrus kwv
-  | Lambda _ b => has_walrus b
-  | UnaryOp _ x => has_walrus x
-  | BinOp _ l r => has_walrus l || has_walrus r
-  | BoolOp _ es => existsb has_walrus es
-  | Compare l _ rs => has_walrus l || existsb has_walrus rs
-  | IfExp c t f => has_walrus c || has_walrus t || has_walrus f
-  | Tuple es | List es => existsb has_walrus es
-  | Dict ks vs => existsb has_walrus ks || existsb has_walrus vs
-  | Subscript v s => has_walrus v || has_walrus s
-  | ListComp x gs | GenExp x gs => has_walrus x || existsb has_walrus gs
-  | CompFor t i ifs _ => has_walrus t || has_walrus i || existsb has_walrus ifs
-  | Other cls _ cs => String.prefix "NamedExpr;" cls || existsb has_walrus cs
-  end.
 
 (* FC5: what visit_Name.safe_parse_wrapper makes of a captured helper whose source was parsed into the lambda
    [l]: the lambda rewritten with the helper's own snapshot [hce]; any exception leaves the helper by name.
